@@ -693,6 +693,12 @@ class Exec:
                     return not x
                 if is_sym(x) and z3.is_bool(x):
                     return z3.Not(x)
+                if isinstance(x, int):
+                    # bitwise complement of a machine word: the operand's width is not tracked for concrete values,
+                    # lengths and indices are usize
+                    return (~x) & (2 ** 64 - 1)
+                if is_sym(x) and z3.is_int(x):
+                    return (2 ** 64 - 1) - x
                 raise Unsupported('bitwise Not')
             if op == 'Neg':
                 return -x
